@@ -17,6 +17,7 @@ LEVEL_TEXT = (
     "the function body runs"
     "; the three shared sources keep exactly one Home Assistant registration per subscribed type (made for the first subscriber, its handle called when the last one leaves); in the legacy loop the filter sees the occurrence's arguments before kwargs are merged and starts one run iff it is truthy"
     "; no listener outlives its function when a stop arrives during start; a filter's variables are those of the current message only; evaluations on a decorator's single evaluator are serialised"
+    '; event data cannot replace trigger_type/event_type/context; data keys named like internal parameters are delivered; legacy trigger grouping (one task per round, guards on every task, None keywords dropped); webhook ids shared by several decorators are released one by one'
 )
 LEVEL_NOTE = "loss/duplication/reordering under bursts depends on asyncio queue scheduling and is not decided; Home Assistant's bus is trusted"
 TECHNIQUE = "sibling agreement of argument builders, aliasing rule for queue fan-outs, def-use agreement filter/dispatch, flow counting of task creations per path, call-site rule for context passing"
